@@ -20,7 +20,8 @@ META = dict(
                       'every interleaving of the per-batch updates of the two accumulators (sets of 2 and 2 batches); a failure of each of 6 exception types injected in the k-th batch of set 1 or set 2',
                 thorough='sets of 4 and 3 traces, 3 + 2 batches interleaved'),
     assumptions=['exact reals; the statistic is compared through its square and its sign (sqrt symbol)',
-                 'the two accumulation threads are run one after the other on the interpreter thread (Thread.start runs run() inline and, like a real thread, swallows an exception that escapes run()); '
+                 'welch / failure jobs: the two accumulation threads are run one after the other on the interpreter thread (Thread.start runs run() inline and, like a real thread, swallows an exception that escapes run()); '
+                 'schedule jobs: real threads under 5 deterministic schedules (each thread processes 0, 1 or all of its batches at start() and the rest when it is joined; one thread runs at a time), the same schedules are imposed on the real code in the replay; '
                  'independence from the real schedule is decided as commutation: the two accumulators share no state and every interleaving of their per-batch updates gives term-identical state'],
     outside=['preemption inside numpy / numba calls that release the GIL', 'the CPython threading machinery itself'],
     stubs=['threading.Thread.start / join run inline (exceptions escaping run() are swallowed as in a real thread)', 'TraceHeaderSet stand-in', 'numba kernel interpreted'],
@@ -38,6 +39,7 @@ def jobs(tier, seed):
     for p in ('float64', 'float32'):
         for bs in (1, 2, 3):
             js.append(dict(name=f'welch-{p}-bs{bs}', kind='welch', p=p, bs=bs, big=(tier != 'quick')))
+    js += [dict(name=f'schedule-{i}', kind='welch', p='float64', bs=1, big=(tier != 'quick'), plan=i) for i in range(len(PLANS))]
     js += [dict(name='interleavings', kind='inter', big=(tier != 'quick')), dict(name='failures', kind='fail')]
     return js
 
@@ -58,6 +60,60 @@ class inline_threads:
 
     def __exit__(self, *a):
         threading.Thread.start, threading.Thread.join = self.start, self.join
+
+
+class scheduled_threads:
+    """Real threads under a deterministic schedule. plan[k] = number of batches the k-th started thread may process before it parks
+    (None: it runs to completion at start()); a parked thread is released when it is joined. Exactly one thread runs at a time:
+    start() returns once the new thread has parked or finished, join() releases it and waits. Exceptions escaping run() are
+    swallowed silently, as the threading module does."""
+
+    def __init__(self, iterable_cls, plan):
+        self.I, self.plan = iterable_cls, list(plan)
+
+    def __enter__(self):
+        self.o_start, self.o_join, self.o_iter, self.o_hook = threading.Thread.start, threading.Thread.join, self.I.__iter__, threading.excepthook
+        threading.excepthook = lambda a: None
+        me, started = self, []
+
+        def start(th):
+            idx = len(started)
+            started.append(th)
+            th._vp_allow = me.plan[idx] if idx < len(me.plan) else None
+            th._vp_event, th._vp_release = threading.Event(), threading.Event()
+            orig_run = type(th).run.__get__(th)
+
+            def wrapped(*a, **k):
+                try:
+                    return orig_run(*a, **k)
+                finally:
+                    th._vp_event.set()
+            th.run = wrapped
+            me.o_start(th)
+            th._vp_event.wait(120)
+
+        def join(th, timeout=None):
+            if hasattr(th, '_vp_release'):
+                th._vp_release.set()
+            me.o_join(th, 120)
+            if 'run' in vars(th):
+                del th.run
+
+        def gated_iter(it):
+            th = threading.current_thread()
+            for i, b in enumerate(me.o_iter(it)):
+                allow = getattr(th, '_vp_allow', None)
+                if allow is not None and i >= allow and not th._vp_release.is_set():
+                    th._vp_event.set()
+                    th._vp_release.wait(120)
+                yield b
+        threading.Thread.start, threading.Thread.join, self.I.__iter__ = start, join, gated_iter
+
+    def __exit__(self, *a):
+        threading.Thread.start, threading.Thread.join, self.I.__iter__, threading.excepthook = self.o_start, self.o_join, self.o_iter, self.o_hook
+
+
+PLANS = [(None, 1), (1, None), (1, 1), (0, 0), (None, 0)]
 
 
 def p1(traces):
@@ -86,6 +142,8 @@ def job_welch(job, res):
     T, cont, pre = _m['ttest'], _m['container'], _m['pp'].preprocess
     p, bs = job['p'], job['bs']
     P1 = pre(p1)
+    plan = PLANS[job['plan']] if job.get('plan') is not None else None
+    threads = (lambda: scheduled_threads(cont._TracesBatchIterable, plan)) if plan is not None else inline_threads
 
     def body(ex, pr):
         n1, n2 = (4, 3) if job['big'] else (3, 2)
@@ -94,7 +152,7 @@ def job_welch(job, res):
         for frame, chain in ((None, []), (slice(0, 2), [P1]), ([2, 0], [])):
             cont.set_batch_size(bs)
             tt = T.TTestAnalysis(precision=p)
-            with inline_threads():
+            with threads():
                 tt.run(T.TTestContainer(FakeTHS(x1[:n1], {}), FakeTHS(x2[:n2], {}), frame=frame, preprocesses=list(chain)))
             mark = len(CTX.side)
             cols = [0, 1, 2] if frame is None else ([0, 1] if isinstance(frame, slice) else [2, 0])
@@ -102,13 +160,13 @@ def job_welch(job, res):
             res1 = tt.result
 
             def wit(what):
-                return lambda m, frame=frame, chain=chain: dict(kind='welch', p=p, bs=bs, frame=str(frame), chain=bool(chain), n1=n1, n2=n2, what_failed=what, x1=L.model_values(m, x1), x2=L.model_values(m, x2),
+                return lambda m, frame=frame, chain=chain: dict(kind='welch', plan=job.get('plan'), p=p, bs=bs, frame=str(frame), chain=bool(chain), n1=n1, n2=n2, what_failed=what, x1=L.model_values(m, x1), x2=L.model_values(m, x2),
                                                                 key=dict(kind='welch', what=what))
             ok = tuple(S._w(res1).shape) == (len(cols),) and all(welch_ok(res1.c[j], [f(E.R(x1.c[i, c])) for i in range(n1)], [f(E.R(x2.c[i, c])) for i in range(n2)]) for j, c in enumerate(cols))
-            pr.prove(z3.BoolVal(bool(ok)), f'TTestAnalysis.run(precision={p}, batch size {bs}, frame {frame}, {len(chain)} preprocess): result^2 (var1/n1 + var2/n2) == (mean1 - mean2)^2 and sign(result) == sign(mean1 - mean2), sets of {n1} and {n2} traces',
+            pr.prove(z3.BoolVal(bool(ok)), f'TTestAnalysis.run(precision={p}, batch size {bs}, frame {frame}, {len(chain)} preprocess{"" if plan is None else ", thread schedule " + str(plan) + " (batches before parking)"}): result^2 (var1/n1 + var2/n2) == (mean1 - mean2)^2 and sign(result) == sign(mean1 - mean2), sets of {n1} and {n2} traces',
                      wit('welch'), sample=(frame is None))
             # a second run accumulates as if the sets were concatenated
-            with inline_threads():
+            with threads():
                 tt.run(T.TTestContainer(FakeTHS(x1[n1:], {}), FakeTHS(x2[n2:], {}), frame=frame, preprocesses=list(chain)))
             res2 = tt.result
             ok2 = tuple(S._w(res2).shape) == (len(cols),) and all(welch_ok(res2.c[j], [f(E.R(x1.c[i, c])) for i in range(n1 + 1)], [f(E.R(x2.c[i, c])) for i in range(n2 + 1)]) for j, c in enumerate(cols))
@@ -220,7 +278,9 @@ def replay(w):
             try:
                 tt = scared.TTestAnalysis(precision=p)
                 outs = []
-                with np.errstate(all='ignore'):
+                import contextlib
+                sched = (lambda: scheduled_threads(scared.container._TracesBatchIterable, PLANS[w['plan']])) if w.get('plan') is not None else contextlib.nullcontext
+                with np.errstate(all='ignore'), sched():
                     tt.run(scared.TTestContainer(tr.read_ths_from_ram(samples=A[:n1]), tr.read_ths_from_ram(samples=B[:n2]), frame=frame, preprocesses=chain))
                     outs.append((np.array(tt.result), A[:n1], B[:n2]))
                     tt.run(scared.TTestContainer(tr.read_ths_from_ram(samples=A[n1:]), tr.read_ths_from_ram(samples=B[n2:]), frame=frame, preprocesses=chain))
